@@ -22,6 +22,7 @@ RULE = (
 )
 ASSUMPTIONS = ["'randomly permuting' of the quantifier text replaced by the complete product of a fixed finite set of scrambles"]
 BOUNDS = {"quick": {"S3": "k<=5; convex: 3 orders x 1 placement each; polyhedron: all 40 scramble combinations on every 6th hull"}, "thorough": {"S3": "k<=6 (k=6 every 5th); all orders for k<=5 on every 4th hull; scrambles on every 2nd hull"}}
+# merge variants additionally x triangle winding in {consistent, alternate, reversed, every-third-shifted}
 PERMS = ["id", "rev", "shift", "swap01", "cyc3"]
 
 
@@ -50,8 +51,9 @@ def cases(tier):
                             j += 1
                 for frev in (False, True):
                     for relabel in (False, True):
-                        out.append({"pts": S, "order": None, "pl": pq[(i + j) % 8], "variant": "merge", "frev": frev, "relabel": relabel})
-                        j += 1
+                        for wind in ("consistent", "alternate", "reversed", "every-third-shifted"):
+                            out.append({"pts": S, "order": None, "pl": pq[(i + j) % 8], "variant": "merge", "frev": frev, "relabel": relabel, "wind": wind})
+                            j += 1
     return out
 
 
@@ -123,6 +125,13 @@ def run_case(case):
             obj.sort_faces()
         else:
             fs = [list(t) for f in ex_faces for t in X.tri_fan(f)]
+            wind = case.get("wind", "consistent")
+            if wind == "alternate":
+                fs = [t[::-1] if i % 2 else t for i, t in enumerate(fs)]  # inconsistently wound triangles
+            elif wind == "reversed":
+                fs = [t[::-1] for t in fs]
+            elif wind == "every-third-shifted":
+                fs = [(t[1:] + t[:1])[::-1] if i % 3 == 0 else t[2:] + t[:2] for i, t in enumerate(fs)]
             if case["frev"]:
                 fs = fs[::-1]
             obj = Polyhedron(F.copy(), [np.array(f) for f in fs])
